@@ -237,6 +237,28 @@ Proof.
   eexists. split; [cbn; apply lookup_insert|]. unfold leave. rewrite Ho. cbn. done.
 Qed.
 
+(* ... and once the cached failure has expired (or there is none) the same check lets the Get through, towards
+   the builder *)
+Lemma gate_open c s t o s' th :
+  threads s !! t = Some th -> t_pc th = PFailCache ->
+  (forall e ex, errs s !! t_key th = Some (e, ex) -> ex <> 0 /\ ex < o_now o) ->
+  fstep c s (LStep t o) = Some s' ->
+  exists th', threads s' !! t = Some th' /\ t_pc th' = PCtxSync /\ flog s' = flog s ++ [].
+Proof.
+  intros Ht Hpc Hexp Hs. unfold Failover.fstep in Hs. rewrite Ht, Hpc in Hs.
+  assert (Hmiss : (if (0 <=? f_failed_ttl c) && negb (t_skip th)
+                   then match errs s !! t_key th with
+                        | Some (e, ex) => if (ex =? 0) || (o_now o <=? ex) then Some e else None
+                        | None => None
+                        end
+                   else None) = None).
+  { destruct ((0 <=? f_failed_ttl c) && negb (t_skip th)); [|done].
+    destruct (errs s !! t_key th) as [[e ex]|] eqn:He; [|done].
+    destruct (Hexp e ex eq_refl) as [Hnz Hlt].
+    replace ((ex =? 0) || (o_now o <=? ex)) with false by lia. done. }
+  rewrite Hmiss in Hs. injection Hs as <-. eexists. split; [cbn; apply lookup_insert|]. done.
+Qed.
+
 (* a Get that has left never comes back: it is never inside the builder again *)
 Lemma finished_stays c s t th l s' :
   threads s !! t = Some th -> finished (t_pc th) = true -> fstep c s l = Some s' ->
